@@ -31,11 +31,11 @@ type Summary struct {
 
 // CampaignOpts controls RunCampaign.
 type CampaignOpts struct {
-	Focus      map[string]bool // property ids whose violations are reported
-	DeathProp  string          // property a worker death (panic of a node goroutine) counts against; "" = inconclusive
-	Budget     time.Duration   // soft wall-clock budget: when exceeded no further scenarios are started (exhaustive=false)
-	KeepTrace  bool
-	OnResult   func(*Scenario, *Result)
+	Focus     map[string]bool // property ids whose violations are reported
+	DeathProp string          // property a worker death (panic of a node goroutine) counts against; "" = inconclusive
+	Budget    time.Duration   // soft wall-clock budget: when exceeded no further scenarios are started (exhaustive=false)
+	KeepTrace bool
+	OnResult  func(*Scenario, *Result)
 }
 
 // IsWorker reports whether this process was started as a pool worker.
@@ -146,23 +146,23 @@ func (s *Summary) Coverage(rule string, bounds map[string]interface{}) core.Cove
 	}
 	sort.Strings(other)
 	return core.Coverage{
-		"states":                        len(s.States),
-		"transitions":                   s.Steps,
-		"traces_validated_against_impl": s.Executions - s.Inconclusive,
-		"evaluations":                   s.Executions,
-		"distinct_nontrivial":           s.Outcomes.Len(),
-		"rule":                          rule,
-		"executions_reaching_target":    s.Done,
-		"executions_with_round_changes": s.MultiRound,
-		"executions_all_rules_active":   s.RuleActive,
-		"max_round_seen":                s.MaxRound,
-		"node_crashes_injected":         s.Crashes,
-		"inconclusive_cases":            s.Inconclusive,
-		"worker_deaths":                 s.Died,
+		"states":                              len(s.States),
+		"transitions":                         s.Steps,
+		"traces_validated_against_impl":       s.Executions - s.Inconclusive,
+		"evaluations":                         s.Executions,
+		"distinct_nontrivial":                 s.Outcomes.Len(),
+		"rule":                                rule,
+		"executions_reaching_target":          s.Done,
+		"executions_with_round_changes":       s.MultiRound,
+		"executions_all_rules_active":         s.RuleActive,
+		"max_round_seen":                      s.MaxRound,
+		"node_crashes_injected":               s.Crashes,
+		"inconclusive_cases":                  s.Inconclusive,
+		"worker_deaths":                       s.Died,
 		"violations_of_other_properties_seen": other,
-		"exhaustive":                    !s.Deadline && s.Inconclusive == 0,
-		"skipped_by_budget":             s.Skipped,
-		"bounds":                        bounds,
-		"samples":                       s.Samples.List(),
+		"exhaustive":                          !s.Deadline && s.Inconclusive == 0,
+		"skipped_by_budget":                   s.Skipped,
+		"bounds":                              bounds,
+		"samples":                             s.Samples.List(),
 	}
 }
